@@ -93,9 +93,12 @@ def variants(ctx, idx, cmds, scripts, lim, quit, base_obs, model_obs):
     base = mk("x")
     toks = base.reads
     for k in range(len(toks) + 1):
-        c = mk("rerr%d" % k); c.reads = toks[:k] + ["err:%d" % (200 + k)] + toks[k:]
-        c.meta["fault"] = ("read", "err", k)
-        out.append(c)
+        # every read position with three error kinds: the one its index selects, UnexpectedEof (code = 4 mod 8)
+        # and Interrupted (1 mod 8) -- the kinds a reader is most tempted to treat as "not really an error"
+        for code in sorted({200 + k, 800 + 8 * k + 4, 800 + 8 * k + 1}):
+            c = mk("rerr%d_%d" % (k, code)); c.reads = toks[:k] + ["err:%d" % code] + toks[k:]
+            c.meta["fault"] = ("read", "err", k)
+            out.append(c)
     stream = base.meta["stream"]
     # packet boundaries of the client stream
     bounds = set()
